@@ -41,7 +41,8 @@ def cases(tier, seed):
             if n % 3 == 0:
                 chunks[n // 2] = []          # an empty chunk in the stream
             yield "mg.unordered", {"table": table, "mode": "symm", "chunks": chunks, "cols": ["count"], "aggs": ["sum"],
-                                   "buf": [1, 2, 10 ** 6][(n + mm) % 3], "max_merge": mm, "form": "frame"}
+                                   "buf": [1, 2, 10 ** 6][(n + mm) % 3], "max_merge": mm, "form": "frame",
+                                   "scale": 4 if (n + mm) % 4 == 1 else 1}
     # (2) record bags x partitions x orders x buffers x storage modes
     nb = 260 if tier == "quick" else 4000
     for h in range(nb):
@@ -67,6 +68,13 @@ def cases(tier, seed):
             for ch in case["chunks"]:
                 rng.shuffle(ch)                  # chunk not sorted internally: sorting requested
             case["ensure_sorted"] = True
+        if h % 6 == 1:
+            case["scale"] = 4                    # float64 value columns (multiples of 0.25), also through the two-pass merge
+            case["max_merge"] = rng.choice([1, 2, 200])
+        if h % 9 == 4 and ncols == 1:
+            # duplicate checking switched off: a pixel may repeat INSIDE a chunk; the result must still be the aggregate
+            case["dupcheck"] = False
+            case["chunks"] = [sorted(ch + [list(p) for p in rng.sample(ch, min(len(ch), 2))]) for ch in case["chunks"]]
         yield "mg.unordered", case
     # (3) merge_breakpoints on index families with leading / trailing empty rows and oversized rows
     vecs = list(itertools.product((0, 1, 3), repeat=4))
